@@ -20,7 +20,7 @@ RULE = ('cases = constructor calls TT(dense, shape?, eps, rmax) on {Gaussian arr
 ASSUMPTIONS = ['exact unfolding ranks are measured by the harness as the number of singular values above 1e-10 (f64) / 1e-5 (f32) relative to the largest',
                '"rmax binding" is decided conservatively: the error clause is skipped whenever some returned rank equals its cap']
 REQUIRED_REACH = ['_decomposition:to_tt', '_decomposition:mat_to_tt', '_decomposition:rank_chop', '_decomposition:SVD', '_tt_base:TT.__init__']
-REQUIRED_COUNTS = {'source:numpy': 1, 'source:torch': 1, 'shape:none': 1, 'shape:tensor': 1, 'shape:operator': 1, 'structure:tall-unfolding': 1, 'rmax:int': 1, 'rmax:list': 1, 'rmax:list-reused-across-calls': 5, 'structure:signal+flat-noise-tail': 4,
+REQUIRED_COUNTS = {'source:numpy': 1, 'source:numpy-fortran-ordered-regrouped': 5, 'source:torch': 1, 'shape:none': 1, 'shape:tensor': 1, 'shape:operator': 1, 'structure:tall-unfolding': 1, 'rmax:int': 1, 'rmax:list': 1, 'rmax:list-reused-across-calls': 5, 'structure:signal+flat-noise-tail': 4,
                    'truncating_executions': 50, 'breakpoints_bisected': 5, 'executions': 500}
 LINE_FUNCS = ['to_tt', 'mat_to_tt', 'rank_chop', 'SVD']
 CASE_TIMEOUT = {'quick': 120, 'thorough': 300}
@@ -204,6 +204,13 @@ def observe(ctx, case, A, src, shape, modes, eps, rmax, label, caps_written=None
         if isinstance(rmax, int):
             kw['rmax'] = np.int64(rmax)
     source = src.numpy() if case.get('source') == 'numpy' else src
+    if case.get('source') == 'numpy' and case['shape'] == 'tensor' and d >= 2 and case.get('seed', 0) % 3 == 0:
+        # a numpy source that is NOT C-contiguous and whose own shape groups the modes differently from the requested one: a 2-D Fortran-ordered array
+        # (np.asfortranarray, or the transposed view of a C-ordered copy of the transpose); the requested shape regroups its LOGICAL (row-major) order
+        k_ = 1 + case.get('seed', 0) // 3 % (d - 1)
+        a2 = A.reshape(int(dn.prod(modes[:k_])), -1).numpy()
+        source = np.asfortranarray(a2) if case.get('seed', 0) // 6 % 2 == 0 else np.ascontiguousarray(a2.T).T
+        ctx.count('source:numpy-fortran-ordered-regrouped')
     kind = 'operator' if case['shape'] == 'operator' else 'tensor'
     key = 'svd/%s/%s' % (kind, 'order1' if d == 1 else 'order>=2')
     what = '%s TT(%s %s%s, eps=%r, rmax=%r) input=%s' % (label, case.get('source'), list(A.shape), (', shape=%s' % shape) if shape else '', eps, rmax, case['kind'])
